@@ -422,7 +422,12 @@ def run_case(case):
                         others = any(o[0] in ("call", "callcb", "shelve") and o[1] == op[1]
                                      for (a2, t2), e2 in ents.items() if (a2, t2) != (aid, tid)
                                      for o in case["actors"][a2][t2])
-                        if not evictors and not (others and not case["prefill"]):
+                        # ... and a concurrent caller with expires_after treats an entry whose metadata are not written yet
+                        # (writer between its two renames) as expired and clears it
+                        cb_same = any(o[0] == "callcb" and o[1] == op[1] and o[2] == op[2]
+                                      for (a2, t2), e2 in ents.items() if (a2, t2) != (aid, tid)
+                                      for o in case["actors"][a2][t2])
+                        if not evictors and not cb_same and not (others and not case["prefill"]):
                             verdict = {"class": "shelved_get_keyerror", "detail": "actor %d: %s: %s (no evictor in this run)" % (aid, op, val),
                                        "sig": {"what": "shelved_get_keyerror"}}
                     elif tag == "value":
